@@ -238,39 +238,23 @@ where
         let welcome_preview = self.preview_welcome(wrapper_event_id, rumor_event)?;
 
         // Create a pending group
-        let group = group_types::Group {
-            mls_group_id: welcome_preview
-                .staged_welcome
-                .group_context()
-                .group_id()
-                .clone()
-                .into(),
-            nostr_group_id: welcome_preview.nostr_group_data.nostr_group_id,
-            name: welcome_preview.nostr_group_data.name.clone(),
-            description: welcome_preview.nostr_group_data.description.clone(),
-            image_hash: welcome_preview.nostr_group_data.image_hash,
-            image_key: welcome_preview
-                .nostr_group_data
-                .image_key
-                .map(mdk_storage_traits::Secret::new),
-            image_nonce: welcome_preview
-                .nostr_group_data
-                .image_nonce
-                .map(mdk_storage_traits::Secret::new),
-            admin_pubkeys: welcome_preview.nostr_group_data.admins.clone(),
-            last_message_id: None,
-            last_message_at: None,
-            last_message_processed_at: None,
-            epoch: welcome_preview
-                .staged_welcome
-                .group_context()
-                .epoch()
-                .as_u64(),
-            state: group_types::GroupState::Pending,
-            self_update_state: group_types::SelfUpdateState::Required,
-        };
+        let group = Self::pending_group_record(&welcome_preview);
 
         let mls_group_id = group.mls_group_id.clone();
+
+        // A Nostr group id belongs to one group record. If another group's record holds the id
+        // this invitation names, the pending record cannot be stored: refuse before anything
+        // is written for the invitation.
+        if let Some(holder) = self
+            .storage()
+            .find_group_by_nostr_group_id(&welcome_preview.nostr_group_data.nostr_group_id)
+            .map_err(|e| Error::Group(e.to_string()))?
+            && holder.mls_group_id != mls_group_id
+        {
+            return Err(Error::Group(
+                "the Nostr group id of the invitation belongs to another group".to_string(),
+            ));
+        }
 
         // An invitation is unconsented input: it must never overwrite (or set back to Pending)
         // the record of a group the user is already an active member of. In that case only
@@ -352,9 +336,58 @@ where
         Ok(welcome)
     }
 
+    /// The group record an invitation stands for until it is accepted: the group data of the
+    /// welcome, state Pending, with the post-join self-update still to be done.
+    fn pending_group_record(preview: &WelcomePreview) -> group_types::Group {
+        group_types::Group {
+            mls_group_id: preview
+                .staged_welcome
+                .group_context()
+                .group_id()
+                .clone()
+                .into(),
+            nostr_group_id: preview.nostr_group_data.nostr_group_id,
+            name: preview.nostr_group_data.name.clone(),
+            description: preview.nostr_group_data.description.clone(),
+            image_hash: preview.nostr_group_data.image_hash,
+            image_key: preview
+                .nostr_group_data
+                .image_key
+                .map(mdk_storage_traits::Secret::new),
+            image_nonce: preview
+                .nostr_group_data
+                .image_nonce
+                .map(mdk_storage_traits::Secret::new),
+            admin_pubkeys: preview.nostr_group_data.admins.clone(),
+            last_message_id: None,
+            last_message_at: None,
+            last_message_processed_at: None,
+            epoch: preview.staged_welcome.group_context().epoch().as_u64(),
+            state: group_types::GroupState::Pending,
+            self_update_state: group_types::SelfUpdateState::Required,
+        }
+    }
+
     /// Accepts a welcome
     pub fn accept_welcome(&self, welcome: &welcome_types::Welcome) -> Result<(), Error> {
         let welcome_preview = self.preview_welcome(&welcome.wrapper_event_id, &welcome.event)?;
+        // The group record normally exists since process_welcome. If the storage layer refused
+        // it then (the welcome is stored first), store it now, before any MLS state is written:
+        // refused again, nothing has been joined.
+        let pending_record = Self::pending_group_record(&welcome_preview);
+        if self.get_group(&pending_record.mls_group_id)?.is_none() {
+            let mls_group_id = pending_record.mls_group_id.clone();
+            self.storage()
+                .save_group(pending_record)
+                .map_err(|e| Error::Group(e.to_string()))?;
+            self.storage()
+                .replace_group_relays(
+                    &mls_group_id,
+                    welcome_preview.nostr_group_data.relays.clone(),
+                )
+                .map_err(|e| Error::Group(e.to_string()))?;
+        }
+
         let mls_group = welcome_preview.staged_welcome.into_group(&self.provider)?;
 
         // The state joined is the inviter's state right after its commit: nothing is queued
